@@ -383,3 +383,103 @@ def rule_K3(ctx, rule: str = "K3") -> None:
                     "timestamp_to_json(datetime(999, 12, 31, tzinfo=timezone.utc))")
     else:
         ctx.proved(rule, "timestamp_to_json:four-digit-year", mod.loc(ts))
+
+
+# ---------------------------------------------------------------------------
+# J4-J6: decoder discipline of _from_dict_init; J5: JSON presence table of to_dict
+
+
+def _fdi_interp(mod, **kw):
+    al = {("sub", A(A(N("cls"), "_betterproto"), "meta_by_field_name"), N("$fname")): META,
+          CALL(N("safe_snake_case"), N("$key")): N("$fname")}
+    value = N("$jvalue")
+
+    def roles(it: Sym, depth: int):
+        if it[0] == "call" and it[1][0] == "a" and it[1][2] == "items" and depth == 0:
+            return [N("$key"), value]
+        return None
+
+    return Interp(mod, aliases=al, loop_roles=roles, **kw)
+
+
+def rule_J4(ctx) -> None:
+    """(a) a key is skipped only when it is unknown or its value is None; (b) the field is looked up under
+    safe_snake_case(key) on every path; (c) repeated values are decoded element by element"""
+    mod = ctx.repo.mod(M_INIT)
+    fn = mod.func("Message._from_dict_init")
+    value = N("$jvalue")
+    n = 0
+    skip_bad = None
+    name_bad = None
+    for t in ("int32", "string", "message", "enum", "bool"):
+        paths = _fdi_interp(mod, bindings={A(META, "proto_type"): t, A(META, "map_types"): None}, fork_ifexp=True).run(fn)
+        ctx.count(len(paths))
+        for p in paths:
+            if p.outcome == "raise":
+                continue
+            n += 1
+            stores = [e for e in p.events if e.kind == "store" and e.data[0][0] == "sub" and e.data[0][1][0] in ("dictd", "n") and e.loops]
+            unknown_key = any(k[0] == "raises" and v for k, v in p.valuation.items()) or any(
+                k[0] == "op" and k[1] in ("in", "is") and v is (k[1] == "is") and "meta_by_field_name" in show(k) for k, v in p.valuation.items())
+            none_val = p.valuation.get(("op", "is", value, C(None))) is True
+            if not stores and not unknown_key and not none_val:
+                skip_bad = (t, p)
+            for e in stores:
+                if e.data[0][2] != N("$fname"):
+                    name_bad = (show(e.data[0][2]), p)
+    if skip_bad:
+        t, p = skip_bad
+        ctx.refuted("J4", "_from_dict_init:skips-only-None", val_text(p.valuation)[:120], mod.loc(fn),
+                    f"a present key with a non-None value is dropped on the path {val_text(p.valuation)}: falsy values (0, empty string, false, {{}}) carry presence for oneof members, "
+                    "proto3 optional fields and empty sub-messages", "M.from_dict({'optCount': 0}) / {'child': {}}")
+    else:
+        ctx.proved("J4", "_from_dict_init:skips-only-None", mod.loc(fn), f"{n} paths")
+    if name_bad:
+        ctx.refuted("J4", "_from_dict_init:field-name-through-safe_snake_case", name_bad[0][:60], mod.loc(fn),
+                    f"on the path {val_text(name_bad[1].valuation)} the field is looked up under {name_bad[0]} instead of safe_snake_case(key): keys that are proto names or cased names "
+                    "of fields whose Python name differs are silently dropped", "from_dict({'sha256sum': ...}) for a field generated as sha256_sum")
+    else:
+        ctx.proved("J4", "_from_dict_init:field-name-through-safe_snake_case", mod.loc(fn))
+    # (c) element-wise decoding: no constant-index peek into the incoming value
+    peeks = [n_ for n_ in ast.walk(fn) if isinstance(n_, ast.Subscript) and isinstance(n_.value, ast.Name) and n_.value.id == "value"
+             and isinstance(n_.slice, ast.Constant) and isinstance(n_.slice.value, int)]
+    if peeks:
+        ctx.refuted("J4", "_from_dict_init:element-wise", ast.unparse(peeks[0]), mod.loc(peeks[0]),
+                    f"how a repeated value is decoded is decided from one element ({ast.unparse(peeks[0])}): a list mixing enum names and plain numbers (which to_dict emits for open enums) is decoded wrongly",
+                    "from_dict({'colours': [99, 'RED']})")
+    else:
+        ctx.proved("J4", "_from_dict_init:element-wise", mod.loc(fn))
+
+
+def rule_J5(ctx) -> None:
+    """JSON presence: what is set is emitted by to_dict whatever its value"""
+    mod = ctx.repo.mod(M_INIT)
+    fn = mod.func("Message.to_dict")
+    inc = N(fn.args.args[2].arg)
+    rep_atom = ("op", "is", ("sub", A(A(SELF, "_betterproto"), "default_gen"), FIELD_NAME), N("list"))
+    base = {inc: False, ("raises", ("AttributeError",), VALUE): False, rep_atom: False, ("op", "is", VALUE, C(None)): False, INCL: False,
+            CALL(N("isinstance"), VALUE, N("datetime")): False, CALL(N("isinstance"), VALUE, N("timedelta")): False}
+    scenarios = [
+        ("wrapper set to the wrapped default (falsy value)", "message", {A(META, "wraps"): "int32"}, {VALUE: False}),
+        ("sub-message present but empty", "message", {A(META, "wraps"): None}, {A(VALUE, "_serialized_on_wire"): True, VALUE: False}),
+        ("optional scalar set to its default", "int32", {A(META, "optional"): True}, {VALUE: False}),
+        ("optional string set to ''", "string", {A(META, "optional"): True}, {VALUE: False}),
+    ]
+    for sname, t, binds, atoms in scenarios:
+        b = dict(type_binding(t))
+        b.update(binds)
+        assume = dict(base)
+        assume.update(atoms)
+        paths = interp_for(mod, bindings=b, assume=assume, inline=_small_helpers(mod, fn, ENC_CLASSES)).run(fn)
+        ctx.count(len(paths))
+        missing = [p for p in paths if p.outcome != "raise" and not any(
+            e.kind == "store" and e.data[0][0] == "sub" and e.data[0][1][0] in ("dictd", "n") and e.loops for e in p.events)]
+        # the value differs from the field default (None) in these scenarios
+        missing = [p for p in missing if p.valuation.get(("op", "==", VALUE, CALL(A(SELF, "_get_field_default"), FIELD_NAME))) is not True]
+        name = f"to_dict:{sname}"
+        if missing:
+            ctx.refuted("J5", name, val_text(missing[0].valuation)[:100], mod.loc(fn),
+                        f"to_dict drops a field in the state '{sname}' (path {val_text(missing[0].valuation)}): presence is lost on the JSON round trip and the reference parser sees the field as unset",
+                        "M(wrapped=0).to_dict() / from_dict round trip")
+        else:
+            ctx.proved("J5", name, mod.loc(fn), f"{len(paths)} paths")
